@@ -44,6 +44,24 @@ def perturb(src, seed, mode):
         rest = ' '.join(l.strip() for l in src.split('\n') if not l.startswith('#'))
         s = '\n'.join(keep + [rest]) + ('\n' if seed % 2 else '')
     if mode == 'crlf': s = s.replace('\n', '\r\n')
+    if mode == 'crlf-splice':
+        rnd2 = random.Random(seed)
+        s = '\r\n'.join((l.replace(' ', ' \\\r\n ', 1) if (' ' in l.strip() and not l.startswith('#') and 'asm(' not in l and rnd2.random() < 0.3) else l) for l in src.split('\n'))
+    if mode == 'dense':
+        # every blank that C does not need is removed: do{X++;}while(X!=5); if(a)b=1;else{c=2;}
+        out = []
+        for ln in src.split('\n'):
+            if ln.startswith('#') or 'asm(' in ln: out.append(ln); continue
+            l2 = re.sub(r'\s*([{}()\[\];,=+\-/<>!&|^~?:])\s*', r'\1', ln.strip())
+            l2 = re.sub(r'(?<![a-z]) ?\* ?', '*', l2) if not re.match(r'^(const |unsigned |signed |char |short |int )', l2) else l2
+            l2 = re.sub(r'([-+])\1', lambda m: m.group(0), l2)
+            out.append(l2)
+        s = '\n'.join(out)
+        # keep apart what would fuse into another token: a - -b, a + +b, a & &b ...
+        if re.search(r'(\+\+\+|---|&&&|\|\|\||<<<|>>>|=-|=\+|=&|=\*|=!|=~)', s): return None
+    if mode == 'dirtab':
+        s = re.sub(r'(?m)^(#\w+) ', r'\1\t', src)
+        s = re.sub(r'(?m)^(#define\t\w+) ', r'\1\t', s)
     return s
 
 
@@ -79,7 +97,7 @@ def run(tier):
     def variants(p):
         seed = int(hashlib.md5(p.pid.encode()).hexdigest()[:6], 16) + rep.seed
         v = [('plain', [], None), ('insert_code', ['--insert-code'], None), ('Wall', ['-W', 'all'], None), ('insert_code+Wall', ['--insert-code', '-W', 'all'], None)]
-        for mode in ('block', 'glue', 'line', 'lineend', 'blank', 'splice', 'splice-indent', 'tabs', 'crlf', 'oneline', 'mixed'):
+        for mode in ('block', 'glue', 'line', 'lineend', 'blank', 'splice', 'splice-indent', 'tabs', 'crlf', 'oneline', 'mixed', 'dense', 'crlf-splice'):
             v.append(('layout:' + mode, [], (lambda p, mode=mode: perturb(p.c(), seed, mode))))
         v.append(('layout:mixed+insert_code', ['--insert-code'], (lambda p: perturb(p.c(), seed + 1, 'mixed'))))
         v.append(('layout:oneline+insert_code', ['--insert-code'], (lambda p: perturb(p.c(), seed, 'oneline'))))
@@ -89,13 +107,24 @@ def run(tier):
     for lvl in (['-O1'], ['-O0']):
         stats, smp, results = runner.relational(rep, progs, variants, 'plain', args_base=lvl, reject_is_violation=True)
         allstats[lvl[0]] = dict(stats); samples += smp[:2]
+    # a tab after the name of a directive and after the name of a macro
+    dprogs = []
+    for k, (body, names) in enumerate([('#define FOO 3\n#define BAR(a, b) ((a) + (b))\nunsigned char g1;\nvoid main() { g1 = FOO + BAR(1, 2); }\n', ['g1']),
+                                        ('#define FOO 1\n#ifdef FOO\nunsigned char g1;\n#else\nunsigned char g2;\n#endif\n#ifndef FOO\nunsigned char g3;\n#endif\nvoid main() { g1 = 1; }\n', ['g1']),
+                                        ('#define FOO 1\n#define ZERO 0\n#if FOO\nunsigned char g1;\n#elif ZERO\nunsigned char g2;\n#endif\n#undef FOO\n#ifdef FOO\nunsigned char g3;\n#endif\n#if ZERO == 0\nunsigned char g4;\n#endif\nvoid main() { g1 = 1; g4 = 2; }\n', ['g1', 'g4'])]):
+        p = TextProg('directives/%d' % k, body, [], names); p.text = (lambda sep, body=body: body); dprogs.append(p)
+    dv = lambda p: [('plain', [], None), ('layout:dirtab', [], (lambda p: perturb(p.c(), 0, 'dirtab'))), ('layout:crlf', [], (lambda p: perturb(p.c(), 0, 'crlf')))]
+    stats, smp, results = runner.relational(rep, dprogs, dv, 'plain', args_base=['-O1'], reject_is_violation=True)
+    allstats['directive-separators/-O1'] = dict(stats)
     # the spelling of multi-word type names
     tv = lambda p: [('plain', [], None)] + [('typesep:' + n, [], (lambda p, s=s: p.text(s))) for n, s in TYPE_SEPS]
     stats, smp, results = runner.relational(rep, list(type_spellings()), tv, 'plain', args_base=['-O1'], reject_is_violation=True)
     allstats['type-spellings/-O1'] = dict(stats)
     # listing/warning options on the complete peephole family (comment lines sit between the instructions the optimiser pairs up)
     big = list(families.g_peep(tier)) + list(families.g_peep_random(4242, 3000 if tier == 'quick' else 12000, depth=4))
-    optv = [('plain', [], None), ('insert_code', ['--insert-code'], None), ('insert_code+Wall', ['--insert-code', '-W', 'all'], None)]
+    import families3
+    big += [p for p in families3.g_deep('quick') if p.pid.startswith(('deep/idx/', 'deep/nest/', 'deep/cmp/', 'deep/tern/', 'deep/bare/'))]
+    optv = [('plain', [], None), ('insert_code', ['--insert-code'], None), ('insert_code+Wall', ['--insert-code', '-W', 'all'], None), ('Wall', ['-W', 'all'], None), ('Wperf', ['-W', 'perf'], None)]
     stats, smp, results = runner.relational(rep, big, optv, 'plain', args_base=['-O1'], reject_is_violation=True)
     allstats['options/-O1'] = dict(stats); samples += smp[:2]
     tot = lambda k: sum(s.get(k, 0) for s in allstats.values())
